@@ -1,5 +1,6 @@
 SPECIFICATION TSpec
 CONSTANTS
+  Delay = 0
   Chains = {"A", "B"}
 CONSTANT Lite = TRUE
 CHECK_DEADLOCK FALSE
